@@ -2141,4 +2141,21 @@ theorem pyEqD_refl_wf : ∀ (r d : List (String × Val)), wfNoLazyD r = true →
 end
 
 
+
+/-! ## collections of environments: one object per member -/
+
+/-- a freshly constructed Densify object gives what `runPrim` gives: in a collection of environments every member has to be
+served by its own object (`Environments.dense` builds one per environment) -/
+theorem fresh_densify_object' (cfg : Cfg) (n : Nat) (c a : Bool) (s : List Inter) :
+    (match runPrimObj cfg (.densify n (.lookup []) c a) (initDState n) s with
+      | .ok (s', _) => Except.ok s'
+      | .error e => .error e) = runPrim cfg (.densify n (.lookup []) c a) s := by
+  simp only [runPrimObj, runPrim, plansOf, densifyPlans, primeKeys, normMethod]
+  cases densifyRun cfg (.lookup []) n c a (firstCallable (·.rewards) s) (firstCallable (·.feedbacks) s) (initDState n) s with
+  | error e => rfl
+  | ok r =>
+    obtain ⟨ps, T⟩ := r
+    simp only
+    cases applyPlans s ps <;> rfl
+
 end Coba.C10
